@@ -1992,7 +1992,7 @@ func TestVerifC03(t *testing.T) {
 		"different facts = violation." + c03sRule + c03fRule)
 	r.Assume("accepted == IsValidVoteproofWithSuffrage(vp, suf)==nil && vp.IsValid(networkID)==nil, evaluated in that order (both are pure)")
 	r.Assume("both voteproofs of a pair carry the network's threshold t in their threshold field; the field itself is attacker-chosen and is compared with the local parameter elsewhere")
-	r.Assume("stuck voteproofs and suffrage-confirm facts are not enumerated: they carry no majority fact / share the INIT fact hash")
+	r.Assume("suffrage-confirm facts are not enumerated: they share the INIT fact hash")
 
 	if _, replaying := r.Replaying(); replaying {
 		var probe struct {
